@@ -1,11 +1,11 @@
 """C07 -- see DESIGN.md section 4, C07."""
-from . import handlers
+from . import handlers, sqlunits
 
-LEVEL = "other"
-EXPLANATION = "trace obligations of the real handlers (layer L2) selected by the prefix C07/"
-ASSUMPTIONS = []
-TRUSTED = []
+LEVEL = "proof"
+EXPLANATION = "contracts of the real SQLite store/queue functions (SQL text interpreted by pyvc.sql) and handler trace obligations, selected by the prefix C07/"
+ASSUMPTIONS = ["SQLite contract of DESIGN 1.4 (statement atomicity, commit atomicity, INSERT OR IGNORE, RETURNING, rowcount)"]
+TRUSTED = ["pyvc.sql statement semantics"]
 
 
 def units(tier):
-    return handlers.units_for("C07")
+    return sqlunits.units_for("C07") + handlers.units_for("C07")
